@@ -217,3 +217,10 @@ Proof.
   - exists bjj_without_ctr. split; [reflexivity|rewrite bjj_ctr_guard_refuted_consistent; reflexivity].
 Qed.
 
+Lemma c12_member_lookup_must_be_case_insensitive :
+  exists p : mtpj,
+    class_of (decode_mtp_with true all_guards p) = CPanic /\ class_of (decode_mtp all_guards p) = CErr.
+Proof.
+  exists capital_siblings. split; vm_compute; reflexivity.
+Qed.
+
